@@ -1,6 +1,6 @@
 # Claims table (exec'd by gen_manifest.py). Keep in step with DESIGN.md §0/§4/§5.
 PENDING = "check not built yet in this round (implementation order: DESIGN.md §8); what a static rule can and cannot decide for it is in DESIGN.md §4/§5"
-for _p in ["C01","C02","C03","C04","C05","C06","C07","C08","C09","C10","C11","C12","C16","C17","C18","C19"]:
+for _p in ["C01","C02","C03","C04","C05","C06","C07","C08","C09","C10","C11","C16","C17","C18","C19"]:
     NOT_APPLICABLE[_p] = PENDING
 
 claim("C15",
@@ -19,3 +19,9 @@ claim("C14",
   "Trusted: go/types; seeds of the side inference; code classes follow the repository's constant names with the mirror table of DESIGN appendix A.3. One known defect (compareDescripton labels a changed description 'deleted' in both directions, pinned by a golden fixture) is listed in known_findings.json under its three obligations.",
   "side-inference dataflow + guard-literal classification (relational triggers) over the typed AST; mirror-site matching",
   "DESIGN.md §4 C14")
+
+claim("C12",
+  "Decides crash-freedom and guard-presence obligations for the diff analyser: every slice/string index, dereference of a pointer that may be nil in a valid Swagger 2.0 document (incl. typed-nil pointers passed through interface parameters), interface{} comparison, single-value type assertion and explicit panic in the diff package is dominated by a fact that makes it safe (facts from branch conditions, producers, guard-function summaries; unguarded parameter uses become preconditions checked at call sites); the $ref recursion of compareSchema tests and updates the visited set before descending and the visited key is loop-free; every difference emission is control-dependent on a relational trigger of difference polarity, and presence lookups compare twin collections. It does not decide reflexivity of the comparison for every spec, nor behaviour under re-serialisation (loader).",
+  "Trusted: go/types; the list of pointer fields of go-openapi/spec that may be nil in a valid document (table diffNilable) and the validity assumptions stated in the evidence (array ⇒ items present; $refs resolve; Paths/Info/Responses present). Five crashes found by these rules were repaired by fix: commits (known_findings.json, status fixed).",
+  "flow-sensitive guard-fact analysis over the typed AST (may-panic obligations with parameter preconditions), dominance ordering for the recursion guard, relational trigger classification",
+  "DESIGN.md §4 C12")
